@@ -584,5 +584,6 @@ pub fn parts() -> Vec<Box<dyn PartDyn>> {
         shrink_budget: 40,
         confirm_runs: 3,
             fuzz: None,
+            watchdog_s: 60,
     })]
 }
